@@ -212,16 +212,23 @@ def task_convert(t):
     nb = len(allbits)
     U = Universe(allbits)
     IU = IntUniverse([(v, 2 ** len(bits[v])) for v in vnames])
-    # encoding: integer assignment index -> bit assignment index
-    enc = []
-    for a in range(IU.N):
-        idx = 0
-        for v in vnames:
-            val = IU.value_of(a, v)
-            for i, b in enumerate(bits[v]):
-                if (val >> i) & 1:
-                    idx |= 1 << U.idx[b]
-        enc.append(idx)
+    # encoding: integer assignment index -> bit assignment index, for a given SIGNIFICANCE
+    # order of the bits of each integer (`bitnames`: least significant first)
+    def make_enc(sig):
+        out = []
+        for a in range(IU.N):
+            idx = 0
+            for v in vnames:
+                val = IU.value_of(a, v)
+                for i, b in enumerate(sig[v]):
+                    if (val >> i) & 1:
+                        idx |= 1 << U.idx[b]
+            out.append(idx)
+        return out
+    sigs = [dict(bits), {v: list(reversed(bits[v])) for v in vnames}]
+    if any(len(bits[v]) > 2 for v in vnames):
+        sigs.append({v: bits[v][1:] + bits[v][:1] for v in vnames})
+    encs = [make_enc(sg) for sg in sigs]
     if nb <= 3:
         fs = list(range(0, 1 << U.N, fstride))
     else:
@@ -247,16 +254,20 @@ def task_convert(t):
         fam.append(acc)
         held_sets = [(f,) for f in fam] + [(fam[0], fam[1])]
     iperms = list(itertools.permutations(vnames)) if int_orders == 'all' else [tuple(vnames)]
-    for bp in bperms:
+    for bpi, bp in enumerate(bperms):
         border = {b: i for i, b in enumerate(bp)}
+        # the significance order of the bits rotates with the bit order: the same integer
+        # variable is converted with different `bitnames` lists within one process
+        sig, enc = sigs[bpi % len(sigs)], encs[bpi % len(sigs)]
         for ip in iperms:
-            dvars = {v: dict(level=ip.index(v), len=2 ** len(bits[v]), bitnames=list(bits[v]))
+            dvars = {v: dict(level=ip.index(v), len=2 ** len(bits[v]), bitnames=list(sig[v]))
                      for v in vnames}
             for hm in held_sets:
                 if focus is not None and list(hm) != list(focus):
                     continue
                 for neg in (False, True):
                     case = dict(task=t[:-1] + (list(hm),), sizes=list(sizes), bit_order=list(bp),
+                                bitnames={v: list(sig[v]) for v in vnames},
                                 int_order=list(ip), held=[U.fmt(f) for f in hm], negated=neg)
                     try:
                         bdd = S.new_bdd(border)
